@@ -9,7 +9,7 @@ from functools import reduce
 
 class Lin:
     """immutable linear form  c + sum coef*sym ; syms are hashable"""
-    __slots__ = ('c', 't', '_h')
+    __slots__ = ('c', 't', '_h', '_fm')
 
     def __init__(self, c=0, t=None):
         self.c = c
@@ -18,6 +18,7 @@ class Lin:
         else:
             self.t = {}
         self._h = None
+        self._fm = None
 
     @staticmethod
     def sym(s):
@@ -127,25 +128,70 @@ class TooHard(Exception):
     pass
 
 
+_SYMID = {}
+
+
+def _sid(s):
+    i = _SYMID.get(s)
+    if i is None:
+        i = len(_SYMID) + 1
+        _SYMID[s] = i
+    return i
+
+
+def _rep(l):
+    """normalised integer-id representation of constraint l <= 0, cached on
+    the (immutable) Lin: (tuple of (symid, coef) sorted by id, const)"""
+    r = getattr(l, '_fm', None)
+    if r is None:
+        n = normalize(l)
+        r = (tuple(sorted((_sid(s), v) for s, v in n.t.items())), n.c)
+        try:
+            l._fm = r
+        except AttributeError:
+            pass
+    return r
+
+
+_FM_MEMO = {}
+_FM_MEMO_MAX = 200000
+
+
 def _fm_unsat(cons, limit=FM_LIMIT):
     """cons: list of Lin meaning lin <= 0. Returns True if provably
     unsatisfiable over the integers (sound: True only if really unsat);
-    False if satisfiable over rationals after tightening or too hard."""
-    # represent as (tuple-items dict, const)
+    False if satisfiable over rationals after tightening.  Raises TooHard."""
     cur = {}
     for l in cons:
-        l = normalize(l)
-        if not l.t:
-            if l.c > 0:
+        k, c = _rep(l)
+        if not k:
+            if c > 0:
                 return True
             continue
-        k = tuple(sorted(l.t.items(), key=lambda kv: str(kv[0])))
-        if k not in cur or cur[k] < l.c:
-            cur[k] = l.c
+        o = cur.get(k)
+        if o is None or o < c:
+            cur[k] = c
+    mk = frozenset(cur.items())
+    hit = _FM_MEMO.get(mk)
+    if hit is not None:
+        if hit == 2:
+            raise TooHard()
+        return hit == 1
+    try:
+        r = _fm_core(cur, limit)
+    except TooHard:
+        if len(_FM_MEMO) < _FM_MEMO_MAX:
+            _FM_MEMO[mk] = 2
+        raise
+    if len(_FM_MEMO) < _FM_MEMO_MAX:
+        _FM_MEMO[mk] = 1 if r else 0
+    return r
+
+
+def _fm_core(cur, limit):
     while True:
         if not cur:
             return False
-        # variable occurrence
         pos = {}
         neg = {}
         mx = {}
@@ -153,33 +199,31 @@ def _fm_unsat(cons, limit=FM_LIMIT):
             for s, v in k:
                 if v > 0:
                     pos[s] = pos.get(s, 0) + 1
+                    if mx.get(s, 0) < v:
+                        mx[s] = v
                 else:
                     neg[s] = neg.get(s, 0) + 1
-                av = v if v > 0 else -v
-                if mx.get(s, 0) < av:
-                    mx[s] = av
-        allv = set(pos) | set(neg)
+                    if mx.get(s, 0) < -v:
+                        mx[s] = -v
         # drop constraints with pure variables
-        pure = [s for s in allv if s not in pos or s not in neg]
+        pure = set(s for s in mx if s not in pos or s not in neg)
         if pure:
-            ps = set(pure)
-            cur = {k: c for k, c in cur.items() if not any(s in ps for s, _ in k)}
+            cur = {k: c for k, c in cur.items() if not any(s in pure for s, _ in k)}
             continue
-        # choose var minimizing product
         # variables with large coefficients (carry symbols of modular
         # arithmetic) are eliminated last so that the single-variable
         # constraints left on them get integer-tightened
-        best = min(allv, key=lambda s: (mx[s] > 1024, pos[s] * neg[s] - pos[s] - neg[s]))
+        best = min(mx, key=lambda s: (mx[s] > 1024, pos[s] * neg[s] - pos[s] - neg[s]))
         P = []
         N = []
         rest = {}
         for k, c in cur.items():
-            co = None
+            co = 0
             for s, v in k:
                 if s == best:
                     co = v
                     break
-            if co is None:
+            if co == 0:
                 rest[k] = c
             elif co > 0:
                 P.append((co, k, c))
@@ -189,26 +233,34 @@ def _fm_unsat(cons, limit=FM_LIMIT):
             raise TooHard()
         for a, kp, cp in P:
             for b, kn, cn in N:
-                # b*(P) + a*(N)
                 t = {}
                 for s, v in kp:
                     if s != best:
-                        t[s] = t.get(s, 0) + v * b
+                        t[s] = v * b
                 for s, v in kn:
                     if s != best:
-                        t[s] = t.get(s, 0) + v * a
-                t = {s: v for s, v in t.items() if v != 0}
+                        nv = t.get(s, 0) + v * a
+                        if nv:
+                            t[s] = nv
+                        elif s in t:
+                            del t[s]
                 c = cp * b + cn * a
                 if not t:
                     if c > 0:
                         return True
                     continue
-                g = reduce(gcd, (abs(v) for v in t.values()))
+                g = 0
+                for v in t.values():
+                    g = gcd(g, v)
+                    if g == 1:
+                        break
                 if g > 1:
                     c = -((-c) // g)
-                    t = {s: v // g for s, v in t.items()}
-                k = tuple(sorted(t.items(), key=lambda kv: str(kv[0])))
-                if k not in rest or rest[k] < c:
+                    k = tuple(sorted((s, v // g) for s, v in t.items()))
+                else:
+                    k = tuple(sorted(t.items()))
+                o = rest.get(k)
+                if o is None or o < c:
                     rest[k] = c
         cur = rest
 
@@ -238,13 +290,16 @@ def cone(cons, seed_syms):
 class Cons:
     """a conjunction of inequalities lin <= 0"""
 
-    def __init__(self, items=None, keys=None):
+    def __init__(self, items=None, keys=None, cache=None):
         self.items = list(items) if items else []
         self.keys = set(keys) if keys else set(l.key() for l in self.items)
-        self.stats = None
+        # entailment memo: query key -> (number of constraints when decided, result).
+        # A positive answer stays valid when constraints are added (monotone);
+        # a negative one only while the set is unchanged.
+        self.cache = dict(cache) if cache else {}
 
     def copy(self):
-        return Cons(self.items, self.keys)
+        return Cons(self.items, self.keys, self.cache)
 
     def add(self, l):
         """add l <= 0"""
@@ -278,8 +333,17 @@ class Cons:
         l = normalize(l)
         if not l.t:
             return l.c <= 0 or self.unsat()
-        if l.key() in self.keys:
+        qk = l.key()
+        if qk in self.keys:
             return True
+        hit = self.cache.get(qk)
+        if hit is not None and (hit[1] or hit[0] == len(self.items)):
+            return hit[1]
+        r = self._entails(l)
+        self.cache[qk] = (len(self.items), r)
+        return r
+
+    def _entails(self, l):
         neg = (-l) + 1      # l >= 1
         # iterative deepening over the constraint neighbourhood of the query:
         # any subset of the constraints that refutes the negation is a proof
